@@ -234,7 +234,10 @@ fn five_tl_alias_class(is_tl: bool, cfg: &FiveLevelPoolConfig, ops: &[Vec<u64>])
 // ---------------- LockFreeMemoryPool ----------------
 struct LfPut { pool: Arc<LockFreeMemoryPool>, msize: usize, h: HashMap<u64, (NonNull<u8>, usize)>, raii: bool, foreign_buf: Vec<u64> }
 fn lf_config(preset: u64, msize: usize) -> LockFreePoolConfig {
-    let mut c = match preset { 1 => LockFreePoolConfig::default(), 2 => LockFreePoolConfig::high_performance(), _ => LockFreePoolConfig::compact() };
+    // presets 4..7: the presets 0..3 with the non-default `zero_on_free` (blocks freed through deallocate_with_zero are scrubbed;
+    // the scrub must stay inside the block, whatever its size is relative to a cache line)
+    let mut c = match preset % 4 { 1 => LockFreePoolConfig::default(), 2 => LockFreePoolConfig::high_performance(), _ => LockFreePoolConfig::compact() };
+    if preset >= 4 { c.zero_on_free = true; c.enable_simd_optimization = true; }
     if msize != 0 { c.memory_size = msize; }
     c
 }
@@ -965,9 +968,9 @@ fn gen_ops(r: &mut Rng, n: u64, classes: &[u64], cap: u64, huge: bool, foreign: 
 fn gen_case(r: &mut Rng, which: u64, bins: &[u64]) -> Value {
     match which {
         0 => { // lockfree
-            let preset = *r.pick(&[0u64, 0, 0, 0, 0, 0, 1, 3, 2]);
-            let msize = if preset == 0 || r.chance(2, 3) { *r.pick(&[256u64, 1024, 4096, 4096, 16384, 65536, 1 << 20]) } else { 0 };
-            let cap = if msize == 0 { [16u64 << 20, 64 << 20, 256 << 20, 16 << 20][preset as usize] } else { msize };
+            let preset = *r.pick(&[0u64, 0, 0, 0, 0, 0, 1, 3, 2, 4, 4, 4, 5, 6]);
+            let msize = if preset % 4 == 0 || r.chance(2, 3) { *r.pick(&[256u64, 1024, 4096, 4096, 16384, 65536, 1 << 20]) } else { 0 };
+            let cap = if msize == 0 { [16u64 << 20, 64 << 20, 256 << 20, 16 << 20][(preset % 4) as usize] } else { msize };
             let cl = classes_for("lockfree", bins);
             let n = r.range(3, 70);
             json!({"cell": "lockfree", "preset": preset, "msize": msize, "raii": r.below(2), "ops": gen_ops(r, n, &cl, cap, true, true, &[1])})
